@@ -194,6 +194,8 @@ fn cases() -> Vec<Case> {
     ] {
         out.push(Case { funcs: vec![], style: NumStyle::Dec, exec: false, reject: None, raw: Some(text.to_string()), split_impl: false, arg_names: None, expect_methods: expect });
     }
+    // a signature naming a type that the own module and an imported module both define
+    out.push(Case { funcs: vec![], style: NumStyle::Dec, exec: false, reject: None, raw: Some("@@two_modules".into()), split_impl: false, arg_names: None, expect_methods: vec![] });
     // rejection menu
     for (why, text) in [
         ("no_address", "pub type T {\n    pub x: u64,\n}\nimpl T {\n    pub fn f(&self);\n}\n"),
@@ -220,6 +222,9 @@ fn arg_name(c: &Case, i: usize) -> String {
 
 fn module_of(c: &Case) -> String {
     if let Some(r) = &c.raw {
+        if r == "@@two_modules" {
+            return "use aaa;\nuse zzz;\npub type Handle {\n    pub x: [u32; 4],\n}\npub type T {\n    pub h: Handle,\n}\nimpl T {\n    #[address(0x10000)]\n    pub fn f(&self, a: *mut Handle, b: Foreign) -> *const Handle;\n}\n".into();
+        }
         return r.clone();
     }
     let mut t = TypeS::new("T");
@@ -272,6 +277,15 @@ fn judge_text(c: &Case, text: &str) -> Option<(String, String)> {
         Ok(f) => f,
         Err(e) => return Some(("output_unreadable".into(), e)),
     };
+    if c.raw.as_deref() == Some("@@two_modules") {
+        let Some(m) = fi.method("T", "f") else {
+            return Some(("wrapper_missing".into(), "T::f".into()));
+        };
+        let want_in = vec![("&self".to_string(), String::new()), ("a".to_string(), "*mut crate::m::Handle".to_string()), ("b".to_string(), "crate::aaa::Foreign".to_string())];
+        if m.inputs != want_in || m.output.as_deref() != Some("*const crate::m::Handle") {
+            return Some(("wrapper_signature_differs".into(), format!("T::f: declared (&self, a: *mut Handle [own module], b: Foreign [module aaa]) -> *const Handle, emitted {:?} -> {:?}", m.inputs, m.output)));
+        }
+    }
     for (ty, m) in &c.expect_methods {
         if fi.method(ty, m).is_none() {
             return Some(("declared_function_not_emitted".into(), format!("the build succeeded but `{ty}::{m}` declared in an impl block is nowhere in the output:\n{text}")));
@@ -357,7 +371,12 @@ pub fn run(tier: &str, only: Option<&Value>) -> i32 {
     for ps in [4usize, 8] {
         let outs = util::par_map(idxs.len(), |j, _| {
             let c = &all[idxs[j]];
-            let input = pipe::Input::single(module_of(c));
+            let mut input = pipe::Input::single(module_of(c));
+            if c.raw.as_deref() == Some("@@two_modules") {
+                let other = "pub type Handle {\n    pub y: [u32; 2],\n    pub z: [u32; 2],\n}\npub enum Foreign: u32 {\n    A,\n}\n".to_string();
+                input.modules.insert(0, ("aaa".into(), other.clone()));
+                input.modules.push(("zzz".into(), other.replace("Foreign", "Other")));
+            }
             let v = pipe::run(&input, ps);
             (input, v)
         });
